@@ -332,7 +332,16 @@ class RFCOMM_Frame:
         fcs = data[-1]
 
         # Construct the frame and check the CRC
-        frame = RFCOMM_Frame(frame_type, c_r, dlci, p_f, information)
+        # A UIH frame with the P/F bit set carries a credit octet that is not
+        # counted in the length field (same convention as `uih()`).
+        frame = RFCOMM_Frame(
+            frame_type,
+            c_r,
+            dlci,
+            p_f,
+            information,
+            with_credits=(frame_type == FrameType.UIH and p_f == 1),
+        )
         if frame.fcs != fcs:
             logger.warning(f'FCS mismatch: got {fcs:02X}, expected {frame.fcs:02X}')
             raise InvalidPacketError('fcs mismatch')
